@@ -68,8 +68,14 @@ reg("C18",
 reg("C02",
     gen=lambda seed, tier: P.gen_roundtrip_programs(G.Rng(seed + 2), N(tier, 120, 1500), big=N(tier, 0.03, 0.08)),
     monitors=[P.mon_roundtrip],
+    extra=lambda seed, tier, flavours: merge(
+        LG.leg_resumed_writer(flavours if tier == "thorough" else flavours[:1]),
+        LG.leg_skeleton(P.gen_roundtrip_programs(G.Rng(seed + 21), N(tier, 6, 40)), flavours[0])),
     nontrivial=lambda rr: has(rr, ("write", "write_hash", "wcommit"), ("ok",)),
-    rule="programs: 1-3 writes through a random entry point (one-shot / streamed with random chunking / declared "
+    rule="(streamed in arbitrary chunk sizes: incl. a REAL short write on the open handle - a file-size limit inside the "
+         "process cuts one write short, is lifted, the caller supplies the rest and commits: the commit answers the digest "
+         "of the acknowledged bytes and they read back; the system-call skeleton of every op equals the model's call trace) "
+         "programs: 1-3 writes through a random entry point (one-shot / streamed with random chunking / declared "
          "size, keyed / by address, sync / async, four SHA algorithms, hostile keys, sizes incl. 0 and 1 MiB±1) each "
          "followed by reads by key and by address in both flavours; non-trivial = a write succeeded")
 
@@ -84,8 +90,12 @@ reg("C16",
                           P.mon_history(rr) if "steps" in rr.prog.tags and "keys" in rr.prog.tags else
                           P.mon_roundtrip(rr) + P.mon_coexist(rr)),
               lambda rr: mon_content_valid(rr)],
+    extra=lambda seed, tier, flavours: merge(
+        LG.leg_resumed_writer(flavours if tier == "thorough" else flavours[:1]),
+        LG.leg_writer_faults(flavours[0], tier)),
     nontrivial=lambda rr: has(rr, ("write", "write_hash", "wcommit"), ("ok",)),
-    rule="as C02; the returned integrity is compared with hashlib's digest; plus histories storing the SAME bytes under "
+    rule="(plus: a streamed writer whose write is cut short / fails and whose caller carries on - real short writes under "
+         "a file-size limit, injected EINTR/EIO/ENOSPC - must commit the digest of the acknowledged bytes, one copy) as C02; the returned integrity is compared with hashlib's digest; plus histories storing the SAME bytes under "
          "2-5 algorithms through mixed entry points: each address is the asked algorithm's digest whatever the cache holds, "
          "all copies read back, and remove_hash of one algorithm's copy leaves the others present and readable; plus the "
          "commit programs and the declared-size matrix of C08 (declared integrity of another algorithm, short / overlong "
@@ -100,8 +110,12 @@ reg("C05",
                             P.gen_key_matrix_programs(G.Rng(seed + 53))),
     monitors=[lambda rr: (P.mon_bucket(rr) if "damage" in rr.prog.tags else
                           P.mon_shared_removal(rr) if "removals" in rr.prog.tags else P.mon_history(rr))],
+    extra=lambda seed, tier, flavours: LG.leg_skeleton(
+        P.gen_history_programs(G.Rng(seed + 54), N(tier, 4, 20), maxlen=8), flavours[0]),
     nontrivial=lambda rr: has(rr, ("remove",), ("ok",)) and has(rr, ("write", "wcommit"), ("ok",)),
-    rule="random histories of keyed writes (all entry points, mixed flavours) and removals over 2-5 keys and 3 values; "
+    rule="(system-call skeleton of writes and removals = the model's call trace: one record = one write(2) on an O_APPEND "
+         "descriptor - what makes 'the most recent successful write' well defined under concurrent appenders) "
+         "random histories of keyed writes (all entry points, mixed flavours) and removals over 2-5 keys and 3 values; "
          "after every step metadata+read of every key (and sometimes a listing) are judged by a dictionary model; "
          "plus histories whose bucket carries a torn / damaged record in the middle (what crashes leave behind): the lookup "
          "still returns the last undamaged record of the key, before and after a further append; "
@@ -308,6 +322,7 @@ reg("C13",
     extra=lambda seed, tier, flavours: merge(
         LG.leg_fault_injection(LG.fault_cases(G.Rng(seed + 13)), flavours[0], tier),
         LG.leg_short_write(G.Rng(seed + 131), flavours[0], N(tier, 8, 60)),
+        LG.leg_resumed_writer(flavours if tier == "thorough" else flavours[:1]),
         *[LG.leg_writer_faults(fl, tier) for fl in (flavours if tier == "thorough" else flavours[:1])],
         LG.leg_mmap_failure(P.gen_size_matrix(G.Rng(seed + 132)) + R_corpus("C13"), flavours,
                             [mon_generic, P.mon_size_matrix, lambda rr: mon_content_valid(rr)])),
